@@ -270,3 +270,56 @@ def rule_file_create(prog, res, clauses=("TRUNC", "LOCK-FIRST", "FD-ONCE")):
         else:
             res.oblige(RULE, inst, True, "%d path(s): %d successful, %d failing" % (len(results), len(succ_paths), len(fail_paths)), f.loc())
     return len(results)
+
+
+def rule_errno_fresh(prog, res, file_suffix="linux/platform.c", rule="R-ERRNO-FRESH"):
+    """The pruning above ("a failed call comes with errno != 0") and every
+    error branch that decides on errno is sound only if errno still is the
+    failing call's: on every path backwards from a read of errno, the nearest
+    call is an operating-system call, not a function of the repository - the
+    logger calls a reporter supplied by the application, which may set errno
+    to anything (0 included: the CHECK_POSIX(0) that follows then falls through
+    its error branch with the descriptor already closed)."""
+    fns = [g for v in prog.funcs.values() for g in v if g.file.endswith(file_suffix) and g.blocks]
+    if not fns:
+        raise AnalysisBroken("no function of %s was extracted" % file_suffix)
+    n = 0
+    for f in fns:
+        preds = f.preds()
+        for b, i, s in f.all_stmts():
+            if not any(c.get("fn") == "__errno_location" for c in ir.calls_in(s)):
+                continue
+            res.touched(f)
+            # calls of the reading statement itself that are evaluated before the read
+            bad = None
+            seen = set()
+            st = [(b.id, i)]
+            while st and bad is None:
+                b_, i_ = st.pop()
+                blk = f.blocks[b_]
+                hit = False
+                for j in range(min(i_, len(blk.stmts)) - 1, -1, -1):
+                    cs = [c for c in ir.calls_in(blk.stmts[j]) if c.get("fn") != "__errno_location"]
+                    if not cs:
+                        continue
+                    hit = True
+                    for c in cs:
+                        h = prog.resolve(c["fn"], f) if c.get("fn") else None
+                        if c.get("fn") is None or (h is not None and h.blocks):
+                            bad = (blk.stmts[j], c)
+                    break
+                if hit:
+                    continue
+                for p in preds.get(b_, []):
+                    if p not in seen:
+                        seen.add(p)
+                        st.append((p, len(f.blocks[p].stmts)))
+            inst = "%s: errno read at line %s still belongs to the failed system call" % (f.name, s.get("line"))
+            if bad is None:
+                res.oblige(rule, inst, True, "", f.loc(s))
+            else:
+                res.fail(rule, inst, "%s|%s|%s" % (rule, f.name, bad[1].get("fn")), f.loc(s),
+                         "%s reads errno at line %s after calling %s (line %s): that function runs repository or application code (the log reporter) which may change errno, "
+                         "so the error branch can see 0 and fall through with the failure unreported" % (f.name, s.get("line"), bad[1].get("fn"), bad[0].get("line")))
+            n += 1
+    return n
